@@ -7,9 +7,10 @@ import TensorModel.Ext.Serial
 import TensorModel.Ext.Reduce
 import TensorModel.Ext.Mask
 import TensorModel.Ext.Assemble
+import TensorModel.Ext.Compat
 /-! Registry of operation families (one import + one list entry per family). -/
 namespace TM
 
-def families : List Family := [minMaxFamily, enginesFamily, historyFamily, linalgFamily, serialFamily, reduceFamily, maskFamily, assembleFamily]
+def families : List Family := [minMaxFamily, enginesFamily, historyFamily, linalgFamily, serialFamily, reduceFamily, maskFamily, assembleFamily, compatFamily]
 
 end TM
